@@ -52,7 +52,7 @@ TIMEOUT = 600.0
 CHILD_TIMEOUT = 240.0
 
 SEEDS_FIXED = ["0", "1", "2", "3"]
-QUICK_MIX = [("script", 9), ("optimize", 5), ("rewrite", 5), ("rewrite_ln", 2), ("rewrite_rms", 3), ("fold", 3), ("convert", 3)]
+QUICK_MIX = [("script", 9), ("optimize", 5), ("rewrite", 5), ("rewrite_ln", 2), ("rewrite_rms", 3), ("fold", 4), ("convert", 3)]
 THOROUGH_MIX = [("script", 60), ("optimize", 35), ("rewrite", 35), ("rewrite_ln", 10), ("rewrite_rms", 10), ("fold", 25),
                 ("convert", 25)]
 POOL = 40
